@@ -144,12 +144,78 @@ class Holpy:
             c = T.Const("real_closed_interval" if k == "cint" else "real_open_interval",
                         Ty.TFun(Ty.RealType, Ty.RealType, self.hset.setT(Ty.RealType)))
             return self.hset.mk_mem(tm(a[1]), c(tm(a[2]), tm(a[3])))
+        if k == "memx":
+            return self.hset.mk_mem(tm(a[1]), self.setterm(a[2]))
+        if k == "subset":
+            return self.hset.mk_subset(self.setterm(a[1]), self.setterm(a[2]))
+        if k == "seteq":
+            return T.Eq(self.setterm(a[1]), self.setterm(a[2]))
         if k in ("sqrt", "log", "exp"):
             return T.Const(k, Ty.TFun(Ty.RealType, Ty.RealType))(tm(a[1]))
         if k == "feq":
             fT = Ty.TFun(self.ty(a[3]), self.ty(a[4]))
             return T.Eq(T.Var(a[1], fT), T.Var(a[2], fT))
         raise ValueError(a)
+
+
+def sdom(se):
+    """element type of a set expression"""
+    k = se[0]
+    if k in ("svar",):
+        return se[2]
+    if k in ("empty", "univ"):
+        return se[1]
+    if k == "insert":
+        return sdom(se[2])
+    return sdom(se[1])
+
+
+def _setterm(self, se):
+    T, Ty, hs = self.T, self.Ty, self.hset
+    k = se[0]
+    if k == "svar":
+        return T.Var(se[1], hs.setT(self.ty(se[2])))
+    if k == "empty":
+        return hs.empty_set(self.ty(se[1]))
+    if k == "univ":
+        return hs.univ(self.ty(se[1]))
+    if k == "insert":
+        return hs.mk_insert(self.term(se[1]), _setterm(self, se[2]))
+    A, B_ = _setterm(self, se[1]), _setterm(self, se[2])
+    if k == "union":
+        return hs.mk_union(A, B_)
+    if k == "inter":
+        return hs.mk_inter(A, B_)
+    if k == "sdiff":
+        sT = hs.setT(self.ty(sdom(se)))
+        return T.Const("diff", Ty.TFun(sT, sT, sT))(A, B_)
+    raise ValueError(se)
+
+
+Holpy.setterm = _setterm
+
+
+def desugar_mem(x, se):
+    k = se[0]
+    if k == "svar":
+        return ("mem", x, se[1], se[2])
+    if k == "empty":
+        return ("ff",)
+    if k == "univ":
+        return ("tt",)
+    if k == "insert":
+        return ("or", ("eq", sdom(se), x, oracle_view(se[1])), desugar_mem(x, se[2]))
+    a, b = desugar_mem(x, se[1]), desugar_mem(x, se[2])
+    if k == "union":
+        return ("or", a, b)
+    if k == "inter":
+        return ("and", a, b)
+    if k == "sdiff":
+        return ("and", a, ("not", b))
+    raise ValueError(se)
+
+
+_fresh = [0]
 
 
 # ---------------------------------------------------------------------------------------------
@@ -863,6 +929,36 @@ class G:
             lambda: ("eq", N, sub(num(N, 2), num(N, 3)), Z0),
             lambda: ("not", ("eq", N, sub(num(N, 2), num(N, 3)), Z0)),
             lambda: ("ge", N, ("app", "f", N, N, sub(s1, s2)), Z0),
+            # --- set operations (norm_term rewrites them away before convert) and bool-domain functions
+            lambda: (lambda d, x_, A_, B_: r.choice([
+                ("iff", ("memx", x_, ("union", A_, B_)), ("or", ("memx", x_, A_), ("memx", x_, B_))),
+                ("imp", ("memx", x_, ("inter", A_, B_)), ("memx", x_, A_)),
+                ("imp", ("memx", x_, A_), ("memx", x_, ("inter", A_, B_))),
+                ("imp", ("subset", A_, B_), ("imp", ("memx", x_, A_), ("memx", x_, B_))),
+                ("subset", A_, ("union", A_, B_)),
+                ("subset", ("union", A_, B_), A_),
+                ("imp", ("memx", x_, ("sdiff", A_, B_)), ("and", ("memx", x_, A_), ("not", ("memx", x_, B_)))),
+                ("imp", ("memx", x_, A_), ("memx", x_, ("sdiff", A_, B_))),
+                ("seteq", ("inter", A_, B_), ("inter", B_, A_)),
+                ("seteq", ("union", A_, B_), A_),
+                ("imp", ("memx", x_, ("empty", d)), ("ff",)),
+                ("memx", x_, ("univ", d)),
+                ("not", ("memx", x_, ("univ", d))),
+                ("iff", ("memx", x_, ("insert", self.tm(d, 0), A_)), ("or", ("eq", d, x_, self.tm(d, 0)), ("memx", x_, A_))),
+                ("memx", x_, ("insert", x_, A_)),
+                ("memx", x_, ("insert", self.tm(d, 1), ("empty", d))),
+                ("imp", ("seteq", A_, ("empty", d)), ("not", ("memx", x_, A_))),
+                ("imp", ("all", bn, N, ("memx", bv, ("svar", "S", N))), ("seteq", ("svar", "S", N), ("univ", N))),
+                ("imp", ("seteq", ("svar", "S", N), ("univ", N)), ("memx", sub(s1, s2), ("svar", "S", N))),
+                ("imp", ("subset", ("univ", N), ("svar", "S", N)), ("memx", sub(s1, s2), ("svar", "S", N))),
+                ("seteq", ("sdiff", A_, A_), ("empty", d)),
+                ("subset", ("insert", self.tm(d, 0), A_), A_),
+            ]))(*(lambda d: (d, self.tm(d, 1), ("svar", SETS[d], d), ("svar", SETS[d] + "2", d)))(r.choice([N, N, R, A, I]))),
+            lambda: ("imp", ("eq", N, ("app", "fb", B, N, self.atom(1)), Z1), ("ge", N, ("app", "fb", B, N, self.atom(1)), Z0)),
+            lambda: (lambda c_: ("eq", N, ("app", "fb", B, N, c_), ("app", "fb", B, N, ("not", ("not", c_)))))(self.atom(1)),
+            lambda: ("eq", N, ("app", "fb", B, N, ("lt", N, num(N, 1), num(N, 2))), ("app", "fb", B, N, ("tt",))),
+            lambda: ("eq", N, ("app", "fb", B, N, ("lt", N, num(N, 1), num(N, 2))), ("app", "fb", B, N, ("ff",))),
+            lambda: ("ge", N, ("app", "fb", B, N, self.atom(1)), Z0),
             # --- unary minus on nat (declared, unspecified): nothing about it may be proved
             lambda: ("imp", ("gt", N, s1, Z0), ("lt", N, ("neg", N, s1), Z0)),
             lambda: ("ge", N, ("neg", N, s1), Z0),
@@ -1178,6 +1274,15 @@ def oracle_view(a):
         return a
     if a[0] == "neg" and a[1] == N:
         return ("app", "%uminus", N, N, oracle_view(a[2]))
+    if a[0] == "memx":
+        return desugar_mem(oracle_view(a[1]), a[2])
+    if a[0] in ("subset", "seteq"):
+        _fresh[0] += 1
+        nm = "e#%d" % _fresh[0]
+        dom = sdom(a[1])
+        x = ("var", nm, dom)
+        l, r = desugar_mem(x, a[1]), desugar_mem(x, a[2])
+        return ("all", nm, dom, ("imp", l, r) if a[0] == "subset" else ("iff", l, r))
     return tuple(oracle_view(x) for x in a)
 
 
@@ -1663,6 +1768,7 @@ def sympy_stage(ctx, H):
     g = GS(rng)
     n = ctx.scale(650, 5000)
     nacc = 0
+    asked = []
     for idx in range(n):
         c = rng.random()
         if c < 0.35:
@@ -1681,6 +1787,16 @@ def sympy_stage(ctx, H):
             goal, cond = g.trans_interval()
         mode = "macro" if idx % 4 == 3 else "direct"
         res = call_sympy(H, goal, cond, mode)
+        if res in ("accept", "reject") and idx % 2 == 0:
+            # the tie to the model is about the decision logic on one query: ask again with an empty cache
+            saved = dict(H.sw.solveset_cache) if hasattr(H.sw, "solveset_cache") else None
+            if saved is not None:
+                H.sw.solveset_cache.clear()
+            res0 = call_sympy(H, goal, cond, mode)
+            if saved is not None:
+                H.sw.solveset_cache.update(saved)
+            if res0 in ("accept", "reject"):
+                asked.append((goal, cond, res0))
         ctx.case(("sympy", canon(goal), canon(cond) if cond else None), nontrivial=size(goal) >= 4)
         ctx.count("sympy:%s:%s" % ("interval" if cond else "plain", res if not res.startswith("raise") else "fails-with-exception"))
         if res.startswith("raise"):
@@ -1699,6 +1815,7 @@ def sympy_stage(ctx, H):
         else:
             ctx.count("sympy:oracle:no-counterexample-on-grid")
     ctx.log("sympy stage: %d goals, %d accepted" % (n, nacc))
+    return asked
 
 
 
@@ -2038,6 +2155,142 @@ def sympy_check_one(ctx, H, goal, cond, mode, label):
     return True
 
 
+# ---------------------------------------------------------------------------------------------
+# SymPy decision logic: real wrapper vs model (solveGoal / solveWithInterval).  The abstract inputs
+# of the model (which side checks hold, equality of normal forms, what solveset answers) are
+# computed here with SymPy directly, from the goal's syntax tree, without the wrapper.
+# ---------------------------------------------------------------------------------------------
+def ast_to_sympy(a):
+    import sympy
+    k = a[0]
+    e = ast_to_sympy
+    if k == "var":
+        return sympy.Symbol(a[1])
+    if k == "num":
+        return sympy.Rational(a[2], a[3])
+    if k == "add":
+        return e(a[2]) + e(a[3])
+    if k == "sub":
+        return sympy.Max(e(a[2]) - e(a[3]), 0) if a[1] == N else e(a[2]) - e(a[3])
+    if k == "mul":
+        return e(a[2]) * e(a[3])
+    if k == "div":
+        if a[1][0] == "num" and a[2][0] == "num" and a[2][2] == 0 and a[1][3] == 1 and a[2][3] == 1 and a[1][2] >= 0:
+            return sympy.Integer(0)           # the literal n / 0 is the number 0 (dest_number)
+        return e(a[1]) / e(a[2])
+    if k == "neg":
+        return -e(a[2])
+    if k == "abs":
+        return sympy.Abs(e(a[2]))
+    if k == "pow":
+        return e(a[2]) ** a[3]
+    if k == "sqrt":
+        return sympy.sqrt(e(a[1]))
+    if k == "log":
+        return sympy.log(e(a[1]))
+    if k == "exp":
+        return sympy.exp(e(a[1]))
+    if k in ("le", "lt", "ge", "gt"):
+        x, y = e(a[2]), e(a[3])
+        return {"le": x <= y, "lt": x < y, "ge": x >= y, "gt": x > y}[k]
+    raise ValueError(k)
+
+
+def is_hol_number(a):
+    """mirror of Term.is_number on the generated fragment: literals, and p / q in lowest terms"""
+    if a[0] == "num":
+        return True
+    if a[0] == "div" and a[1][0] == "num" and a[2][0] == "num" and a[1][3] == 1 and a[2][3] == 1 and a[1][2] >= 0 and a[2][2] >= 0:
+        import math
+        return a[2][2] != 1 and math.gcd(a[1][2], a[2][2]) == 1
+    return False
+
+
+def side_terms(a, divs, conds):
+    if is_hol_number(a):
+        return
+    if a[0] == "div":
+        divs.append(a[2])
+    if a[0] == "sqrt":
+        conds.append(("nonneg", a[1]))
+    if a[0] == "log":
+        conds.append(("pos", a[1]))
+    for x in a[1:]:
+        if isinstance(x, tuple):
+            side_terms(x, divs, conds)
+
+
+def sympy_model_line(goal, cond):
+    """wire line for the model, or None when the abstract inputs cannot be computed"""
+    import sympy
+    divs, conds = [], []
+    side_terms(goal, divs, conds)
+    kind = "neq" if goal[0] == "not" and goal[1][0] == "eq" else ("eq" if goal[0] == "eq" else "rel")
+    if cond is None:
+        ok = True
+        for d in divs:
+            d = ast_to_sympy(d)
+            ok = ok and bool(d.is_number and d.is_zero is False)
+        for kd, d in conds:
+            d = ast_to_sympy(d)
+            ok = ok and bool(d.is_number) and ((d.is_nonnegative is True) if kd == "nonneg" else (d.is_positive is True))
+        if kind == "neq":
+            diff = sympy.simplify(ast_to_sympy(goal[1][2]) - ast_to_sympy(goal[1][3]))
+            return ["sgoal", "neq", ok, bool(diff.is_number and diff.is_real is True and diff.is_zero is False)]
+        if kind == "eq":
+            l, r = ast_to_sympy(goal[2]), ast_to_sympy(goal[3])
+            return ["sgoal", "eq", ok, 0, 0 if l == r else 1]
+        return ["sgoal", "rel", ok, bool(ast_to_sympy(goal) == True)]  # noqa: E712
+    var = sympy.Symbol("x")
+    interval = (sympy.Interval if cond[0] == "cint" else sympy.Interval.open)(ast_to_sympy(cond[2]), ast_to_sympy(cond[3]))
+    foreign = any(sy[0] == "v" and sy[1] != "x" for sy in free_syms(goal))
+    flags = [not foreign]
+    for d in divs:
+        flags.append(sympy.solveset(ast_to_sympy(d), var, interval) == sympy.EmptySet)
+    for kd, d in conds:
+        d = ast_to_sympy(d)
+        flags.append(sympy.solveset(d >= 0 if kd == "nonneg" else d > 0, var, interval) == interval)
+    if kind == "eq":
+        return ["sinterval", "eq", flags, True]
+    if not all(flags):
+        return ["sinterval", kind, flags, True]        # the main query is not reached
+    if kind == "neq":
+        main = sympy.solveset(ast_to_sympy(goal[1][2]) - ast_to_sympy(goal[1][3]), var, interval) == sympy.EmptySet
+    else:
+        main = sympy.solveset(ast_to_sympy(goal), var, interval) == interval
+    return ["sinterval", kind, flags, bool(main)]
+
+
+def sympy_correspondence(ctx, H, asked):
+    """asked: [(goal, cond, 'accept'|'reject')] answered by the real wrapper in a FRESH cache state"""
+    lines, want, keep = [], [], []
+    for goal, cond, res in asked:
+        try:
+            with time_limit(20):
+                ln = sympy_model_line(goal, cond)
+        except Timeout:
+            raise
+        except Exception as e:  # noqa   (SymPy raises on some relations: the wrapper then fails too)
+            ctx.count("corr:sympy:inputs-not-computable:" + type(e).__name__)
+            continue
+        lines.append(sexp.dumps(ln))
+        want.append("T" if res == "accept" else "F")
+        keep.append((goal, cond))
+    out = ctx.lean_driver(EXE, lines) if lines else []
+    if out is None:
+        ctx.broken("correspondence:c06:driver", "model driver unavailable")
+        return
+    nd = 0
+    for k, (w, o) in enumerate(zip(want, out)):
+        ctx.count("corr:sympy:%s" % ("agree" if w == o else "DISAGREE"))
+        if w != o:
+            nd += 1
+            if nd <= 3:
+                g, c = keep[k]
+                ctx.broken("correspondence:c06:sympy", "goal=%s cond=%s line=%s wrapper=%s model=%s" % (
+                    H.term(g), H.term(c) if c else None, lines[k], w, o))
+
+
 def sympy_history_stage(ctx, H):
     """The wrapper keeps module-level state (solveset cache): the same goal is asked under the
     open and the closed interval over the SAME end points, in varied orders within this one
@@ -2167,8 +2420,9 @@ def run(ctx):
     n = z3_check_goals(ctx, H, dgoals, ctx.rng("z3-oracle-directed"), "directed")
     ctx.log("z3 directed stage: %d goals, %d accepted" % (len(dgoals), n))
     # 4. SymPy oracle streams
-    sympy_stage(ctx, H)
+    asked = sympy_stage(ctx, H)
     sympy_history_stage(ctx, H)
+    sympy_correspondence(ctx, H, asked)
     # 5. correspondence with the model
     correspondence(ctx, H, cz + goals + dgoals, "gen")
     must = ["z3:gen:accept", "z3:gen:reject", "z3:oracle:valid-by-oracle", "sympy:plain:accept", "sympy:interval:accept", "corr:gen:agree",
@@ -2212,10 +2466,11 @@ MANIFEST = {
             "and by regenerating norm_thms/check_z3. Every acceptance of the real wrapper is judged by an independent encoding + exact "
             "evaluation + brute force. SymPy half: ORACLE-JUDGED (every acceptance of solve_goal / solve_with_interval / the macro, also "
             "under varied query histories within one process, is checked on rational grids with HOL semantics); the Lean side has only "
-            "theorems about the acceptance logic for an ABSTRACT value-preserving normaliser (no executable tie: solveGoal / "
-            "solveWithInterval have no driver op, their divisor arguments carry no proof obligation).",
+            "theorems about the acceptance logic for an ABSTRACT value-preserving normaliser; solveGoal / solveWithInterval are tied to "
+            "the wrapper only at the level of that logic (their abstract inputs -- side checks, equality of normal forms, solveset answers "
+            "-- are recomputed by the harness with SymPy and the verdicts compared), their divisor arguments carry no proof obligation.",
     "note": "Trusted: Lean kernel, Z3 and SymPy themselves, the harness (generators, term reader, independent encoding, evaluators), "
-            "norm_term/fologic.simplify (oracle-covered only; set operations, multi-argument and bool-domain functions are not generated). "
+            "norm_term/fologic.simplify (oracle-covered only; multi-argument functions are not generated: the wrapper crashes on them). "
             "check_z3_off_unsound, untranslatable_conclusion_not_negated and stdQuant_std restate definitions (pins, not properties). "
             "Accepted goals the independent oracle could not decide are counted in evidence coverage.oracle_undecided. Theorems hold for the "
             "tree with fixes/C06-1..11.patch.",
